@@ -67,6 +67,8 @@ type unit struct {
 	kf      *knownFindings
 	ghostTypes map[string]types.Type
 	rawBoxed bool
+	implFacts  map[string]bool
+	implAxioms []string
 	codeLoad bool // a load instruction of the code (not a contract expression) is being executed
 	rawStored  map[string]bool // typed heaps that received an integer-made pointer (`rawstores`)
 	typedLoads map[string]bool // typed pointer heaps loaded in this unit
@@ -101,6 +103,7 @@ type frame struct {
 }
 
 type state struct {
+	implSeen map[string]bool
 	cvBinds []Val // bindings of the closure whose contract is being applied
 	u       *unit
 	vals    map[ssa.Value]Val
